@@ -1044,7 +1044,8 @@ MANIFEST = {
             "object serializer and through the four real serializers. Any exception type other "
             "than ProtocolError/InvalidUriError, any acceptance of a must-reject form and any "
             "rejection or altered re-marshalling of a valid form is a violation."
-            " Every option / detail key is additionally placed ALONE on the minimal form x every typed value.",
+            " Every option / detail key is additionally placed ALONE on the minimal form x every typed value."
+            " Every feature of every role of HELLO / WELCOME is placed alone with every typed value.",
     "note": "Trusted: ref/wamp_grammar.py (must-reject = the cases the property statement names; "
             "'either' where the specification leaves latitude, where only totality is checked), "
             "the third-party codecs (the harness decodes the same octets with the same codec to "
